@@ -30,11 +30,14 @@ def extract(n):
             for d in lib.definitions:
                 prim[d.name] = {p.name: (DIRNAME[p.direction.name], len(p.pins)) for p in d.ports}
     return {"insts": insts, "nets": nets, "ports": ports, "primitives": prim, "top": top.name,
+            "clock": list(top.get("EBLIF.clock", []) or []),
             "top_lib": top.library.name if top.library else None,
             "leaf": {d.name: d.is_leaf() for lib in n.libraries if lib is not top.library for d in lib.definitions}}
 
 
 def diff(exp, got, check_prims=True):
+    if "clock" in exp and exp["clock"] != got.get("clock"):
+        return ("clock", "expected %r got %r" % (exp["clock"], got.get("clock")))
     if exp["ports"] != got["ports"]:
         return ("ports", "expected %r got %r" % (exp["ports"], got["ports"]))
     if set(exp["insts"]) != set(got["insts"]):
@@ -60,3 +63,35 @@ def diff(exp, got, check_prims=True):
         if gp != ports:
             return ("inferred-black-box-ports", "%s: expected widths %r got %r" % (name, ports, gp))
     return None
+
+
+def match_nameless(exp, got):
+    """exp with its placeholder instance names (<model>@nameless<k>) replaced by the names the reader chose, for
+    the first assignment (per model, every permutation) under which diff() finds nothing; exp itself if there are
+    no placeholders or no assignment fits (the diff of the identity assignment is then what gets reported)."""
+    import itertools
+    ph = sorted(n for n in exp["insts"] if "@nameless" in n)
+    if not ph:
+        return exp
+    named = set(exp["insts"]) - set(ph)
+    free = sorted(n for n in got["insts"] if n not in named)
+    if len(free) != len(ph) or len(set(free)) != len(free):
+        return exp
+    by_model_ph, by_model_free = {}, {}
+    for n in ph:
+        by_model_ph.setdefault(exp["insts"][n][0], []).append(n)
+    for n in free:
+        by_model_free.setdefault(got["insts"][n][0], []).append(n)
+    if {k: len(v) for k, v in by_model_ph.items()} != {k: len(v) for k, v in by_model_free.items()}:
+        return exp
+    models = sorted(by_model_ph)
+    for perms in itertools.product(*[itertools.permutations(by_model_free[m]) for m in models]):
+        ren = {}
+        for m, perm in zip(models, perms):
+            ren.update(dict(zip(by_model_ph[m], perm)))
+        cand = dict(exp)
+        cand["insts"] = {ren.get(k, k): v for k, v in exp["insts"].items()}
+        cand["nets"] = set(frozenset((e[0], ren.get(e[1], e[1])) + tuple(e[2:]) if e[0] == "I" else e for e in net) for net in exp["nets"])
+        if diff(cand, got) is None:
+            return cand
+    return exp
